@@ -212,6 +212,14 @@ func RunProperty(spec *PropertySpec, opt CheckOptions) int {
 	var knownRepro []string
 	var vsamples []interface{}
 	os.MkdirAll(filepath.Join(opt.Verif, "replays"), 0o755)
+	// Violations: known findings are reported as such; the others are confirmed natively before they
+	// are printed. Confirmation has a budget per run (one native build per harness dir and shim
+	// mode, at most maxReplays replays, distinct obligations first): one confirmed violation already
+	// decides the run, the rest are listed in the evidence as not replayed.
+	const maxReplays = 8
+	nb := newNativeBins(opt.Repo, opt.Verif, names)
+	defer nb.close()
+	var pending []*Violation
 	for _, h := range runs {
 		for _, v := range h.Violations {
 			if v.Known {
@@ -224,30 +232,53 @@ func RunProperty(spec *PropertySpec, opt CheckOptions) int {
 					continue
 				}
 			}
-			// a real (unlisted) violation: write the replay file and confirm natively
-			path := writeReplay(opt.Verif, spec.ID, tier, v)
-			status := "unconfirmed"
-			if !opt.NoReplay {
-				ok, out := ReplayNative(opt.Repo, opt.Verif, path)
-				replayed++
-				if ok {
-					status = "confirmed"
-				} else {
-					status = "NOT reproduced natively: " + out
-				}
+			pending = append(pending, v)
+		}
+	}
+	// distinct obligations first
+	seenID := map[string]int{}
+	sort.SliceStable(pending, func(i, j int) bool { return false })
+	var ordered, later []*Violation
+	for _, v := range pending {
+		if seenID[v.ID] == 0 {
+			ordered = append(ordered, v)
+		} else {
+			later = append(later, v)
+		}
+		seenID[v.ID]++
+	}
+	ordered = append(ordered, later...)
+	notReplayed := 0
+	for _, v := range ordered {
+		path := writeReplay(opt.Verif, spec.ID, tier, v)
+		status := "unconfirmed"
+		if !opt.NoReplay {
+			if replayed >= maxReplays && nviol > 0 {
+				notReplayed++
+				continue
 			}
-			if status == "confirmed" || opt.NoReplay {
-				nviol++
-				exit = 1
-				fmt.Printf("VIOLATION property=%s replay=%s\n", spec.ID, path)
-				fmt.Printf("  harness=%s obligation=%s at %s: %s [%s]\n", v.Harness, v.ID, v.Pos, v.Msg, status)
+			ok, out := nb.replay(path)
+			replayed++
+			if ok {
+				status = "confirmed"
 			} else {
-				problems = append(problems, fmt.Sprintf("UNCONFIRMED counterexample %s/%s (%s): %s", v.Harness, v.ID, path, status))
-			}
-			if len(vsamples) < 5 {
-				vsamples = append(vsamples, map[string]interface{}{"violation": v.ID, "harness": v.Harness, "replay": path, "status": status})
+				status = "NOT reproduced natively: " + out
 			}
 		}
+		if status == "confirmed" || opt.NoReplay {
+			nviol++
+			exit = 1
+			fmt.Printf("VIOLATION property=%s replay=%s\n", spec.ID, path)
+			fmt.Printf("  harness=%s obligation=%s at %s: %s [%s]\n", v.Harness, v.ID, v.Pos, v.Msg, status)
+		} else {
+			problems = append(problems, fmt.Sprintf("UNCONFIRMED counterexample %s/%s (%s): %s", v.Harness, v.ID, path, status))
+		}
+		if len(vsamples) < 5 {
+			vsamples = append(vsamples, map[string]interface{}{"violation": v.ID, "harness": v.Harness, "replay": path, "status": status})
+		}
+	}
+	if notReplayed > 0 {
+		fmt.Printf("NOTE property=%s: %d further counterexample(s) of the solver were not replayed natively (replay budget %d reached after a confirmed violation); their replay files are in %s\n", spec.ID, notReplayed, maxReplays, filepath.Join(opt.Verif, "replays"))
 	}
 	if len(e.Dropped) > 0 {
 		fmt.Printf("NOTE property=%s: harness files dropped (no longer type-check against /repo): %v\n", spec.ID, e.Dropped)
